@@ -541,25 +541,19 @@ Proof.
         -- destruct (IH p (or_intror H)) as [(a & b & ->) Hm]. split; [exists (c :: a), b; reflexivity|exact Hm].
 Qed.
 
-Lemma fmax_idem (s e : F64) : D.is_nan s = false -> D.is_nan e = false -> D.max s (D.max s e) = D.max s e.
-Proof.
-  intros Hs He. unfold D.max, fmax, D.is_nan in *. rewrite Hs, He.
-  destruct (flt 53 1024 s e) eqn:E.
-  - rewrite He, E. reflexivity.
-  - rewrite Hs. assert (L : flt 53 1024 s s = false).
-    { unfold flt. rewrite Bltb_cmp. rewrite Bcompare_refl by exact Hs. reflexivity. }
-    rewrite L. reflexivity.
-Qed.
-
 Lemma in_lim64_not_nan x : in_lim64 x = true -> D.is_nan x = false.
 Proof. unfold in_lim64. intros H. apply andb_prop_l in H. apply andb_prop_l in H. apply negb_true_iff in H. exact H. Qed.
 
-Lemma break_image s e : in_lim64 s = true -> in_lim64 e = true -> break_ok (mkBreak s (D.max s e)) = true.
+Lemma flt_irrefl (s : F64) : D.is_nan s = false -> D.lt s s = false.
+Proof. intros Hs. unfold D.lt, flt. rewrite Bltb_cmp, Bcompare_refl by exact Hs. reflexivity. Qed.
+
+Lemma break_image s e : in_lim64 s = true -> in_lim64 e = true ->
+  break_ok (mkBreak s (if D.lt e s then s else e)) = true.
 Proof.
   intros Hs He. unfold break_ok. cbn [bp_start bp_end].
-  rewrite (fmax_idem s e (in_lim64_not_nan _ Hs) (in_lim64_not_nan _ He)), f64_eqb_refl, Hs.
-  destruct (fmax_is_one 53 1024 s e) as [E | E]; change (fmax 53 1024 s e) with (D.max s e) in E;
-    rewrite E; [rewrite Hs|rewrite He]; reflexivity.
+  destruct (D.lt e s) eqn:E.
+  - rewrite Hs, (flt_irrefl s (in_lim64_not_nan _ Hs)). reflexivity.
+  - rewrite Hs, He, E. reflexivity.
 Qed.
 
 Lemma parse_events_pre st l : memb ch_lf l = false -> events_pre st = true ->
